@@ -31,3 +31,6 @@ mod c18;
 
 #[cfg(kani)]
 mod c08;
+
+#[cfg(kani)]
+mod c05;
